@@ -28,7 +28,8 @@ def sh(cmd, cwd=None, timeout=3600):
 
 def confirm(d: Path) -> dict:
     d = d.resolve()
-    scratch = Path("/tmp/seeded_confirm")
+    import os
+    scratch = Path(os.environ.get("VERIF_CONFIRM_DIR", "/tmp/seeded_confirm"))
     sh(["git", "-C", REPO, "worktree", "remove", "--force", str(scratch)])
     rc, out = sh(["git", "-C", REPO, "worktree", "add", "--detach", str(scratch), "HEAD"])
     res = dict(dir=str(d))
